@@ -4,7 +4,7 @@ cd "$(dirname "$0")/.."
 IDS=${*:-C15 C14 C16 C13 C17 C19 C18 C10 C09 C20 C07 C11 C02 C06 C01 C03 C12 C08 C05}
 for id in $IDS; do
   s=$(date +%s)
-  timeout 2400 ./check $id thorough > /tmp/thorough_$id.log 2>&1; rc=$?
+  timeout 3000 ./check $id thorough > /tmp/thorough_$id.log 2>&1; rc=$?
   e=$(date +%s)
   echo "$id rc=$rc $((e-s))s $(tail -1 /tmp/thorough_$id.log | cut -c1-330)"
   grep -E "^(INCONCLUSIVE|TRANSLATOR|CANARY|REPLAY-ERROR|VIOLATION|UNCONFIRMED|CHECK-ERROR)" /tmp/thorough_$id.log | cut -c1-200 | sort | uniq -c | head -5
